@@ -105,8 +105,22 @@ fn gen_layout(r: &mut Rng, k: usize, which: u64) -> Option<Layout> {
     let n = t.len() - k;
     let (a, b) = (t[0], t[t.len() - 1]);
     let g = greville(&t, k);
-    match which % 4 {
+    match which % 5 {
         0 => Some(Layout { k, t, tau: g, left_n: 0, right_n: 0, lsq: false, name: "greville" }),
+        4 => {
+            // the first k sites bunched at the start of the first knot interval, the rest at the Greville
+            // abscissae: admissible (t_i < tau_i < t_{i+k}) but far from the comfortable layouts - row
+            // exchanges in the banded collocation matrix, negative fill-in next to structural zeros
+            let mut tau = g.clone();
+            let t1 = t[k];
+            for i in 1..k.min(n.saturating_sub(1)) {
+                tau[i] = a + (t1 - a) * (i as f64) / (k as f64 + 1.0);
+            }
+            if tau.windows(2).any(|w| w[0] >= w[1]) {
+                return None;
+            }
+            Some(Layout { k, t, tau, left_n: 0, right_n: 0, lsq: false, name: "bunched-in-first-interval" })
+        }
         1 => {
             // natural / clamped / mixed end conditions with repeated end sites
             if n < 4 || k < 3 {
@@ -209,7 +223,7 @@ impl Prop for C15 {
         for k in 2..=6 {
             v.push(format!("order:{}", k));
         }
-        for l in ["greville", "natural(2,2)", "clamped(1,1)", "mixed-end-derivatives", "least-squares", "perturbed-greville"] {
+        for l in ["greville", "natural(2,2)", "clamped(1,1)", "mixed-end-derivatives", "least-squares", "perturbed-greville", "bunched-in-first-interval"] {
             v.push(format!("layout:{}", l));
         }
         for d in ["random", "polynomial", "dual-data", "dual2-data", "dual-abscissa", "dual2-abscissa", "basis-dual-abscissa", "basis-dual2-abscissa", "solved-again-on-same-object", "solved-on-object-created-with-coefficients", "mismatched-counts-rejected", "evaluate-before-solve-rejected"] {
@@ -224,7 +238,7 @@ impl Prop for C15 {
         tier.pick(200_000, 10_000_000)
     }
     fn rule(&self) -> String {
-        "Seeded splines of order 2..6 on knot vectors as in C14; site layouts: Greville, perturbed Greville, repeated end sites with natural (2,2) / clamped (1,1) / mixed end-derivative conditions (the classical cubic layout with data at the interior knots), least squares with extra sites; collocation matrices pre-screened with an own LU (pivot ratio >= 1e-4; ill-conditioned draws skipped and counted). Data: random, polynomial of degree < k, Dual / Dual2 with one variable per datum. After csolve: interior sites and end conditions reproduced (also through the independent piecewise-polynomial basis oracle on the returned coefficients), polynomial data reproduced in value and all derivatives at knots, end points, neighbouring floats, midpoints and random points; sensitivity to datum j == value of the float spline solved on the unit vector e_j; Dual / Dual2 abscissae give the spline's own first / second derivative as sensitivities (with non-zero own Hessian of the abscissa); mismatched site counts and evaluation before solving are errors; the 3x3 (spline type x abscissa type) table of mapped_value. distinct_nontrivial = distinct (k, layout, knot count) x case.".into()
+        "Seeded splines of order 2..6 on knot vectors as in C14; site layouts: Greville, perturbed Greville, the first k sites bunched at the start of the first knot interval, repeated end sites with natural (2,2) / clamped (1,1) / mixed end-derivative conditions (the classical cubic layout with data at the interior knots), least squares with extra sites; collocation matrices pre-screened by their 1-norm condition number (<= 1e5, computed by an own Gauss-Jordan inversion; ill-conditioned draws skipped and counted). Data: random, polynomial of degree < k, Dual / Dual2 with one variable per datum. After csolve: interior sites and end conditions reproduced (also through the independent piecewise-polynomial basis oracle on the returned coefficients), polynomial data reproduced in value and all derivatives at knots, end points, neighbouring floats, midpoints and random points; sensitivity to datum j == value of the float spline solved on the unit vector e_j; Dual / Dual2 abscissae give the spline's own first / second derivative as sensitivities (with non-zero own Hessian of the abscissa); mismatched site counts and evaluation before solving are errors; the 3x3 (spline type x abscissa type) table of mapped_value. distinct_nontrivial = distinct (k, layout, knot count) x case.".into()
     }
     fn assumptions(&self) -> Vec<String> {
         vec!["tolerance 1e-9 relative to the summed magnitude |c_i| |B_i| of the terms".into(), "site sets violating Schoenberg-Whitney (singular collocation) are outside the property and are skipped".into()]
@@ -241,8 +255,11 @@ impl Prop for C15 {
         let n = l.n();
         let m = l.tau.len();
         let bm = l.matrix();
-        let ratio = if l.lsq {
-            // normal equations
+        // "admissible" site sets give a regular collocation matrix; how regular decides how exactly the forward
+        // quantities (coefficients, reproduced polynomials, sensitivities) can come out. The 1-norm condition
+        // number of the matrix actually eliminated (B, or B^T B for least squares) is bounded at 1e5, so that
+        // n * eps * cond stays two orders below the 1e-8 / 1e-9 tolerances used below.
+        let cond = if l.lsq {
             let mut g = vec![vec![0.0; n]; n];
             for i in 0..n {
                 for j in 0..n {
@@ -251,11 +268,11 @@ impl Prop for C15 {
                     }
                 }
             }
-            lu_ratio(&g)
+            super::c13::cond1(&g)
         } else {
-            lu_ratio(&bm)
+            super::c13::cond1(&bm)
         };
-        if !(ratio >= 1e-4) {
+        if !(cond <= 1e5) {
             ctx.skip("ill-conditioned or singular collocation matrix");
             return;
         }
@@ -456,7 +473,7 @@ impl Prop for C15 {
                     ctx.eval(1);
                     ctx.asserted(1);
                     if !((got - want).abs() <= 1e-8 * mag.max(want.abs()).max(1e-300)) {
-                        ctx.violation(&format!("C15|polynomial-not-reproduced|derivative-{}|{}", mm.min(3), l.name), case(json!({"polynomial_degree": deg, "x": x, "derivative": mm, "observed": got, "expected": want, "data": yp})));
+                        ctx.violation(&format!("C15|polynomial-not-reproduced|derivative-{}|{}", mm.min(3), l.name), case(json!({"polynomial_degree": deg, "x": x, "derivative": mm, "observed": got, "expected": want, "allowed_error": 1e-8 * mag.max(want.abs()), "data": yp})));
                         return;
                     }
                 }
